@@ -239,8 +239,11 @@ fn one_pattern(out: &mut ChunkOut, scope: &str, text: &str, inputs: &[String]) {
         let (opt, un) = match (opt, un) {
             (Out::Ok(a), Out::Ok(b)) => (a, b),
             (a, b) => {
-                if a.is_crash() || b.is_crash() {
+                if a.is_crash() && b.is_crash() {
                     out.inc("inconclusive_crash");
+                } else if a.is_crash() != b.is_crash() {
+                    out.inc("validated");
+                    out.fail("C08", &Case::new(scope, text, flags).api("compile"), "OnlyOneSideCrashes", "the same outcome with and without optimisations", &format!("optimised: {} / all off: {}", a.map(|_| ()).show(), b.map(|_| ()).show()), "a panic or an exhausted step budget on one side only is a difference");
                 } else if a.ok().is_some() != b.ok().is_some() {
                     out.inc("validated");
                     out.fail(
@@ -266,9 +269,14 @@ fn one_pattern(out: &mut ChunkOut, scope: &str, text: &str, inputs: &[String]) {
             let a = imp::surface(&opt, inp, repl);
             let b = imp::surface(&un, inp, repl);
             out.inc("states");
-            if a.any_crash() || b.any_crash() {
-                // fuel exhaustion / panic on either side is C05/C06's; inconclusive here
+            if a.any_crash() && b.any_crash() {
+                // fuel exhaustion / panic on both sides is C05/C06's; inconclusive here
                 out.inc("inconclusive_crash");
+                continue;
+            }
+            if a.any_crash() != b.any_crash() {
+                out.inc("validated");
+                out.fail("C08", &Case::new(scope, text, flags).input(inp).repl(repl).api("all"), "OnlyOneSideCrashes", &format!("all off: {}", b.show()), &format!("optimised: {}", a.show()), "a panic or an exhausted step budget on one side only is a difference");
                 continue;
             }
             out.inc("validated");
